@@ -83,11 +83,13 @@ static uint64_t mix64(uint64_t x)
     return x ^ (x >> 31);
 }
 
-/* content patterns: 0 = 00 (guards ff), 1 = ff (guards 00), 2 = a5/5a alternating (guards inverted), 3 = LCG */
+/* content patterns: 0 = 00 (guards ff), 1 = ff (guards 00), 2 = a5/5a alternating (guards inverted), >= 3 = LCG stream
+ * (data and guards) seeded from the tuple, the pattern number and the run seed */
+#define NPAT 6u
 static void buf_fill(Buf* b, size_t size, int pat, uint64_t seed)
 {
     size_t   i;
-    uint64_t x = mix64(seed ^ (g_seed * 0xD6E8FEB86659FD93ULL));
+    uint64_t x = mix64(seed ^ (g_seed * 0xD6E8FEB86659FD93ULL) ^ ((uint64_t) pat << 40));
     if (size > CAP)
     {
         printf("SELFCHECK-FAIL buffer size %zu over capacity\n", size);
@@ -243,10 +245,11 @@ static void failp(const P* p, const char* clause, const char* fmt, ...)
 
 static void report_buf(const P* p, const char* clause, const Buf* b, size_t bitpos, const char* extra)
 {
-    char before[96], after[96];
-    hexbuf(before, sizeof(before), b->orig + GUARD, b->size);
-    hexbuf(after, sizeof(after), b->d, b->size);
-    failp(p, clause, "first offending bit %zu; buffer before=%s after=%s %s", bitpos, before, after, extra);
+    char         before[96], after[96];
+    const size_t first = (b->size > 40u && bitpos / 8u > 16u) ? (bitpos / 8u - 16u) : 0u; /* window around the offending bit */
+    hexbuf(before, sizeof(before), b->orig + GUARD + first, b->size - first);
+    hexbuf(after, sizeof(after), b->d + first, b->size - first);
+    failp(p, clause, "first offending bit %zu; buffer (from byte %zu) before=%s after=%s %s", bitpos, first, before, after, extra);
 }
 
 static void count_case(int nontrivial)
@@ -714,4 +717,1449 @@ static int t_getI(const P* p)
     }
     check_source_intact(p, &A);
     return 1;
+}
+
+/* ------------------------------------------------------------------------------------------------ floating point
+ * Reference for binary16: hval[k] = exact value (as double) of the magnitude code k, 0 <= k <= 0x7BFF, computed with
+ * ldexp() from the fields; hval[0x7C00] = +inf.  Magnitude codes are ordered like the values they denote.
+ */
+static double hval[0x7C01];
+static void   f16_init(void)
+{
+    unsigned k;
+    for (k = 0; k < 0x7C00u; k++)
+    {
+        const unsigned e = k >> 10, m = k & 0x3FFu;
+        hval[k] = (e == 0) ? ldexp((double) m, -24) : ldexp((double) (m | 0x400u), (int) e - 25);
+    }
+    hval[0x7C00] = (double) INFINITY;
+    for (k = 0; k < 0x7C00u; k++)
+    {
+        if (!(hval[k] < hval[k + 1]))
+        {
+            printf("SELFCHECK-FAIL half table not strictly increasing at %u\n", k);
+            exit(3);
+        }
+    }
+    if (hval[0x7BFF] != 65504.0 || hval[1] != ldexp(1.0, -24) || hval[0x3C00] != 1.0 || hval[0x400] != ldexp(1.0, -14))
+    {
+        printf("SELFCHECK-FAIL half table anchor values\n");
+        exit(3);
+    }
+}
+static uint32_t f2u(float f) { uint32_t u; memcpy(&u, &f, 4); return u; }
+static float    u2f(uint32_t u) { float f; memcpy(&f, &u, 4); return f; }
+static uint64_t d2u(double f) { uint64_t u; memcpy(&u, &f, 8); return u; }
+static double   u2d(uint64_t u) { double f; memcpy(&f, &u, 8); return f; }
+
+/* largest k with hval[k] <= x, x finite >= 0 (binary search) */
+static unsigned f16_floor(double x)
+{
+    unsigned lo = 0, hi = 0x7C00u; /* invariant: hval[lo] <= x < hval[hi] */
+    while (hi - lo > 1u)
+    {
+        const unsigned mid = (lo + hi) / 2u;
+        if (hval[mid] <= x)
+        {
+            lo = mid;
+        }
+        else
+        {
+            hi = mid;
+        }
+    }
+    return lo;
+}
+
+/* Verdict for one conversion float32 (bit pattern fb) -> half (out): NULL if acceptable, else the violated clause.
+ * kfloor: floor code of |x| (caller supplies it: from the ordered sweep pointer or from the binary search).
+ * Rules (property statement): NaN -> NaN; inf -> inf of the same sign; sign preserved; |x| >= 65520 (the first value
+ * whose nearest binary16 neighbour is infinity) -> infinity; otherwise the magnitude code is floor or ceil of the exact
+ * value (faithful), and exactly the code itself when the value is representable. */
+static const char* f16_verdict(uint32_t fb, uint16_t out, unsigned kfloor, int* nontrivial)
+{
+    const uint32_t mag  = fb & 0x7FFFFFFFu;
+    const unsigned code = out & 0x7FFFu;
+    *nontrivial         = 1;
+    if (mag > 0x7F800000u)
+    {
+        return ((code & 0x7C00u) == 0x7C00u && (code & 0x3FFu) != 0u) ? NULL : "nan-not-preserved";
+    }
+    if ((out >> 15) != (fb >> 31))
+    {
+        return "sign-not-preserved";
+    }
+    if (mag == 0x7F800000u)
+    {
+        return (code == 0x7C00u) ? NULL : "infinity-not-preserved";
+    }
+    {
+        const double x = (double) u2f(mag);
+        if (x >= 65520.0)
+        {
+            return (code == 0x7C00u) ? NULL : "out-of-range-not-infinity";
+        }
+        if (hval[kfloor] == x)
+        {
+            *nontrivial = 0;
+            return (code == kfloor) ? NULL : "representable-value-changed";
+        }
+        return (code == kfloor || code == kfloor + 1u) ? NULL : "not-faithful";
+    }
+}
+
+#if defined(__FLT16_MANT_DIG__)
+/* oracle self-check only: the compiler's IEEE round-to-nearest-even conversion must be acceptable to f16_verdict */
+static void f16_selfcheck(uint32_t fb, unsigned kfloor)
+{
+    const _Float16 h = (_Float16) u2f(fb);
+    uint16_t       b;
+    int            nt;
+    const char*    c;
+    memcpy(&b, &h, 2);
+    c = f16_verdict(fb, b, kfloor, &nt);
+    if (c != NULL)
+    {
+        printf("SELFCHECK-FAIL reference rejects the compiler's _Float16 conversion of 0x%08x -> 0x%04x: %s\n", fb, b, c);
+        exit(3);
+    }
+}
+#else
+static void f16_selfcheck(uint32_t fb, unsigned kfloor) { (void) fb; (void) kfloor; }
+#endif
+
+/* state of an ordered sweep (increasing bit patterns => increasing magnitude within each sign) */
+typedef struct
+{
+    unsigned k;         /* floor pointer */
+    unsigned prev_code; /* last magnitude code returned */
+    uint32_t prev_fb;
+    int      sign;
+    uint64_t idx;
+} Sweep;
+static void sweep_reset(Sweep* s, int sign) { s->k = 0; s->prev_code = 0; s->prev_fb = 0; s->sign = sign; }
+
+static void f16_sweep_one(Sweep* s, uint32_t fb, int selfcheck)
+{
+    P              p;
+    const uint32_t mag = fb & 0x7FFFFFFFu;
+    uint16_t       out;
+    const char*    c;
+    int            nt = 1;
+    memset(&p, 0, sizeof(p));
+    p.fam = "f16pack";
+    p.val = fb;
+    if ((int) (fb >> 31) != s->sign)
+    {
+        sweep_reset(s, (int) (fb >> 31));
+    }
+    out = impl_f16pack(u2f(fb));
+    if (mag < 0x7F800000u)
+    {
+        const double x = (double) u2f(mag);
+        while (hval[s->k + 1u] <= x)
+        {
+            s->k++;
+        }
+        if ((s->idx & 0xFFFu) == 0u && f16_floor(x) != s->k)
+        {
+            printf("SELFCHECK-FAIL sweep pointer %u != binary search %u at 0x%08x\n", s->k, f16_floor(x), fb);
+            exit(3);
+        }
+        if (selfcheck)
+        {
+            f16_selfcheck(fb, s->k);
+        }
+    }
+    s->idx++;
+    c = f16_verdict(fb, out, s->k, &nt);
+    count_case(nt);
+    if (c != NULL)
+    {
+        failp(&p, c, "float32 0x%08x (%.9g) -> half 0x%04x; floor code 0x%04x (%.9g), next 0x%04x (%.9g)", fb,
+              (double) u2f(fb), out, s->k, hval[s->k], s->k + 1u, hval[(s->k + 1u) > 0x7C00u ? 0x7C00u : (s->k + 1u)]);
+    }
+    if (mag <= 0x7F800000u)
+    {
+        const unsigned code = out & 0x7FFFu;
+        if (mag >= s->prev_fb && code < s->prev_code && c == NULL)
+        {
+            failp(&p, "not-monotone", "float32 0x%08x -> 0x%04x but the smaller magnitude 0x%08x -> 0x%04x", fb, out,
+                  s->prev_fb, s->prev_code);
+        }
+        s->prev_code = code;
+        s->prev_fb   = mag;
+    }
+}
+
+/* ordered sweep over start, start+stride, ... (count values), with a deterministic jitter < stride in the low bits */
+static void f16_sweep(uint32_t start, uint64_t count, uint32_t stride, uint64_t seed, int selfcheck)
+{
+    Sweep    s;
+    uint64_t i;
+    memset(&s, 0, sizeof(s));
+    sweep_reset(&s, (int) (start >> 31));
+    for (i = 0; i < count; i++)
+    {
+        const uint64_t base = (uint64_t) start + i * (uint64_t) stride;
+        const uint32_t jit  = (stride > 1u) ? (uint32_t) (mix64(seed ^ i) % stride) : 0u;
+        if (base + jit > 0xFFFFFFFFull)
+        {
+            break;
+        }
+        f16_sweep_one(&s, (uint32_t) (base + jit), selfcheck);
+    }
+}
+
+/* critical neighbourhoods: +-8 float ulps around every binary16 value and every midpoint between two adjacent ones */
+static void g_f16crit(int thin)
+{
+    int sign;
+    for (sign = 0; sign < 2; sign++)
+    {
+        Sweep    s;
+        unsigned k;
+        memset(&s, 0, sizeof(s));
+        sweep_reset(&s, sign);
+        for (k = 0; k < 0x7C00u; k += (thin ? 7u : 1u))
+        {
+            const double   hi  = (k == 0x7BFFu) ? 65536.0 : hval[k + 1u];
+            const uint32_t c[2] = {f2u((float) hval[k]), f2u((float) ((hval[k] + hi) / 2.0))};
+            int            w, d;
+            for (w = 0; w < 2; w++)
+            {
+                for (d = -8; d <= 8; d++)
+                {
+                    const int64_t fb = (int64_t) c[w] + d;
+                    if (fb >= 0)
+                    {
+                        f16_sweep_one(&s, (uint32_t) fb | ((uint32_t) sign << 31), !thin);
+                    }
+                }
+            }
+        }
+    }
+}
+
+/* exact float32 value of a half code, built from the fields with ldexpf (exact: every binary16 value is a binary32 value) */
+static float ref_f16unpack(uint16_t h, int* is_nan)
+{
+    const unsigned e = (h >> 10) & 0x1Fu, m = h & 0x3FFu;
+    float          v;
+    *is_nan = 0;
+    if (e == 31u)
+    {
+        if (m != 0u)
+        {
+            *is_nan = 1;
+            return 0.0f;
+        }
+        v = INFINITY;
+    }
+    else
+    {
+        v = (e == 0u) ? ldexpf((float) m, -24) : ldexpf((float) (m | 0x400u), (int) e - 25);
+    }
+    return (h & 0x8000u) ? -v : v;
+}
+
+static int t_f16unpack(const P* p)
+{
+    const uint16_t h = (uint16_t) p->val;
+    int            nan;
+    const float    exp = ref_f16unpack(h, &nan);
+    const float    got = impl_f16unpack(h);
+    count_case(((h & 0x7C00u) == 0u) || ((h & 0x7C00u) == 0x7C00u)); /* subnormal / zero / inf / NaN */
+    if (nan)
+    {
+        if (!(got != got))
+        {
+            failp(p, "nan-not-preserved", "half 0x%04x (NaN) unpacked to 0x%08x", h, f2u(got));
+        }
+    }
+    else if (f2u(got) != f2u(exp))
+    {
+        failp(p, ((h & 0x7FFFu) == 0x7C00u) ? "infinity-not-preserved" : "value-wrong",
+              "half 0x%04x unpacked to 0x%08x (%.9g), exact value 0x%08x (%.9g)", h, f2u(got), (double) got, f2u(exp), (double) exp);
+    }
+    return 1;
+}
+
+static int t_f16roundtrip(const P* p)
+{
+    const uint16_t h   = (uint16_t) p->val;
+    const int      nan = ((h & 0x7C00u) == 0x7C00u) && ((h & 0x3FFu) != 0u);
+    const uint16_t r   = impl_f16pack(impl_f16unpack(h));
+    count_case(((h & 0x7C00u) == 0u) || ((h & 0x7C00u) == 0x7C00u));
+    if (nan)
+    {
+        if (!(((r & 0x7C00u) == 0x7C00u) && ((r & 0x3FFu) != 0u)))
+        {
+            failp(p, "nan-not-preserved", "pack(unpack(0x%04x)) = 0x%04x is not a NaN", h, r);
+        }
+    }
+    else if (r != h)
+    {
+        failp(p, "round-trip-changed", "pack(unpack(0x%04x)) = 0x%04x", h, r);
+    }
+    return 1;
+}
+
+/* single conversion (replay / set-get families): binary search instead of the sweep pointer */
+static int t_f16pack(const P* p)
+{
+    const uint32_t fb  = (uint32_t) p->val;
+    const uint32_t mag = fb & 0x7FFFFFFFu;
+    const uint16_t out = impl_f16pack(u2f(fb));
+    const unsigned k   = (mag < 0x7F800000u) ? f16_floor((double) u2f(mag)) : 0u;
+    int            nt;
+    const char*    c = f16_verdict(fb, out, k, &nt);
+    count_case(nt);
+    if (c != NULL)
+    {
+        failp(p, c, "float32 0x%08x (%.9g) -> half 0x%04x; floor code 0x%04x (%.9g)", fb, (double) u2f(fb), out, k, hval[k]);
+    }
+    return 1;
+}
+
+/* set float: n = 16 / 32 / 64; val = bit pattern of the float32 (n=16,32) or float64 (n=64) argument */
+static int t_setF(const P* p)
+{
+    const size_t off = (size_t) p->dof, size = (size_t) p->size, w = (size_t) p->n;
+    const int    erc = (size * 8u < off + w) ? ERR_TOO_SMALL : 0;
+    int          rc  = 0, is_nan;
+    uint64_t     bits;
+    size_t       j;
+    if (size > CAP || !(w == 16 || w == 32 || w == 64))
+    {
+        return 0;
+    }
+    buf_fill(&B, size, (int) p->pat, pseed(p, 11));
+    if (w == 16)
+    {
+        CALL1(&B, rc = impl_setf16(B.d, size, off, u2f((uint32_t) p->val)));
+        is_nan = (p->val & 0x7FFFFFFFu) > 0x7F800000u;
+    }
+    else if (w == 32)
+    {
+        CALL1(&B, rc = impl_setf32(B.d, size, off, u2f((uint32_t) p->val)));
+        is_nan = (p->val & 0x7FFFFFFFu) > 0x7F800000u;
+    }
+    else
+    {
+        CALL1(&B, rc = impl_setf64(B.d, size, off, u2d(p->val)));
+        is_nan = (p->val & 0x7FFFFFFFFFFFFFFFull) > 0x7FF0000000000000ull;
+    }
+    count_case(((off % 8u) != 0u) || (erc != 0));
+    if (rc != erc)
+    {
+        failp(p, "wrong-result-code", "returned %d, reference %d", rc, erc);
+    }
+    else
+    {
+        /* the bits written to [off, off+w) */
+        bits = 0;
+        for (j = 0; erc == 0 && j < w; j++)
+        {
+            bits |= ((uint64_t) nbit(&B, off + j)) << j;
+        }
+        for (j = 0; j < size * 8u; j++)
+        {
+            if (!((erc == 0) && (j >= off) && (j < off + w)) && nbit(&B, j) != obit(&B, j))
+            {
+                report_buf(p, "bit-outside-range-modified", &B, j, "");
+                break;
+            }
+        }
+        if (erc == 0)
+        {
+            if (w == 16)
+            {
+                const uint32_t fb  = (uint32_t) p->val;
+                const uint32_t mag = fb & 0x7FFFFFFFu;
+                int            nt;
+                const char*    c = f16_verdict(fb, (uint16_t) bits, (mag < 0x7F800000u) ? f16_floor((double) u2f(mag)) : 0u, &nt);
+                if (c != NULL)
+                {
+                    failp(p, c, "float32 0x%08x stored as half 0x%04x", fb, (unsigned) bits);
+                }
+            }
+            else if (is_nan)
+            {
+                const int ok = (w == 32) ? ((bits & 0x7FFFFFFFu) > 0x7F800000u) : ((bits & 0x7FFFFFFFFFFFFFFFull) > 0x7FF0000000000000ull);
+                if (!ok)
+                {
+                    failp(p, "nan-not-preserved", "stored 0x%" PRIx64, bits);
+                }
+            }
+            else if (bits != p->val)
+            {
+                failp(p, "addressed-bit-wrong", "stored 0x%" PRIx64 ", IEEE 754 representation 0x%" PRIx64, bits, p->val);
+            }
+        }
+    }
+    check_guards(p, &B, "destination");
+    return 1;
+}
+
+/* get float: n = 16 / 32 / 64; zero extension past the end applies to the raw bits */
+static int t_getF(const P* p)
+{
+    const size_t off = (size_t) p->so, size = (size_t) p->size, w = (size_t) p->n;
+    uint64_t     raw;
+    if (size > CAP || !(w == 16 || w == 32 || w == 64))
+    {
+        return 0;
+    }
+    buf_fill(&A, size, (int) p->pat, pseed(p, 12));
+    raw = ref_getu(&A, off, w);
+    count_case(((off % 8u) != 0u) || (off + w > size * 8u));
+    if (w == 16)
+    {
+        float got = 0;
+        int   nan;
+        float exp = ref_f16unpack((uint16_t) raw, &nan);
+        CALL1(&A, got = impl_getf16(A.d, size, off));
+        if (nan ? !(got != got) : (f2u(got) != f2u(exp)))
+        {
+            failp(p, nan ? "nan-not-preserved" : "value-wrong", "raw half 0x%04x read as 0x%08x, reference 0x%08x", (unsigned) raw, f2u(got), f2u(exp));
+        }
+    }
+    else if (w == 32)
+    {
+        float     got = 0;
+        const int nan = (raw & 0x7FFFFFFFu) > 0x7F800000u;
+        CALL1(&A, got = impl_getf32(A.d, size, off));
+        if (nan ? !(got != got) : (f2u(got) != (uint32_t) raw))
+        {
+            failp(p, nan ? "nan-not-preserved" : "value-wrong", "read 0x%08x, reference bits 0x%08x", f2u(got), (uint32_t) raw);
+        }
+    }
+    else
+    {
+        double    got = 0;
+        const int nan = (raw & 0x7FFFFFFFFFFFFFFFull) > 0x7FF0000000000000ull;
+        CALL1(&A, got = impl_getf64(A.d, size, off));
+        if (nan ? !(got != got) : (d2u(got) != raw))
+        {
+            failp(p, nan ? "nan-not-preserved" : "value-wrong", "read 0x%" PRIx64 ", reference bits 0x%" PRIx64, d2u(got), raw);
+        }
+    }
+    check_source_intact(p, &A);
+    return 1;
+}
+
+/* ------------------------------------------------------------------------------------------------ C++ only: bitspan */
+#ifdef C14_CPP
+static size_t avail_bits(size_t size, size_t off) { return (size * 8u > off) ? (size * 8u - off) : 0u; }
+
+/* Shared verdict for "zero the bits [off, off+len)": every addressed bit zero, every earlier bit intact, every byte
+ * after the last addressed byte intact; later bits INSIDE the last addressed byte may be zeroed (tolerated: no documented
+ * contract; the generated serializers only append).  len == 0: nothing may change. */
+static void verdict_zeroed(const P* p, size_t off, size_t len)
+{
+    const size_t last = (len > 0) ? ((off + len - 1u) / 8u) : 0u;
+    size_t       j;
+    int          tol = 0;
+    for (j = 0; j < B.size * 8u; j++)
+    {
+        const int got = nbit(&B, j);
+        if (len > 0 && j >= off && j < off + len)
+        {
+            if (got != 0)
+            {
+                report_buf(p, "addressed-bit-not-zeroed", &B, j, "");
+                return;
+            }
+        }
+        else if (len > 0 && j >= off + len && (j / 8u) == last)
+        {
+            if (got != obit(&B, j))
+            {
+                if (got != 0)
+                {
+                    report_buf(p, "bit-outside-range-modified", &B, j, "(set to one)");
+                    return;
+                }
+                tol = 1;
+            }
+        }
+        else if (got != obit(&B, j))
+        {
+            report_buf(p, (j < off) ? "earlier-bit-modified" : "byte-after-range-modified", &B, j, "");
+            return;
+        }
+    }
+    if (tol)
+    {
+        g_tolerated++;
+    }
+}
+
+/* setZeros: n==0 -> setZeros(len); n==1 -> setZeros() == setZeros(size()) */
+static int t_setZeros(const P* p)
+{
+    const size_t off = (size_t) p->dof, size = (size_t) p->size;
+    const size_t av  = avail_bits(size, off);
+    const size_t len = (p->n == 1) ? av : (size_t) p->len;
+    const int    erc = (len > av) ? ERR_TOO_SMALL : 0;
+    int          rc  = 0;
+    if (size > CAP)
+    {
+        return 0;
+    }
+    buf_fill(&B, size, (int) p->pat, pseed(p, 20));
+    {
+        bitspan s(B.d, size, off);
+        if (p->n == 1)
+        {
+            CALL1(&B, rc = vr(s.setZeros()));
+        }
+        else
+        {
+            CALL1(&B, rc = vr(s.setZeros(len)));
+        }
+    }
+    count_case(nt3(off, len, 0) || (erc != 0));
+    if (rc != erc)
+    {
+        failp(p, "wrong-result-code", "returned %d, reference %d (available bits %zu, length %zu)", rc, erc, av, len);
+    }
+    else if (erc != 0)
+    {
+        if (!data_intact(&B))
+        {
+            report_buf(p, "written-despite-error", &B, 0, "");
+        }
+    }
+    else
+    {
+        verdict_zeroed(p, off, len);
+    }
+    check_guards(p, &B, "destination");
+    return 1;
+}
+
+/* padAndMoveToAlignment(n): zero bits up to the next multiple of n, advance the offset; error if they do not fit */
+static int t_padAndMove(const P* p)
+{
+    const size_t off = (size_t) p->dof, size = (size_t) p->size, n = (size_t) p->n;
+    size_t       pad, noff = 0;
+    int          erc, rc = 0;
+    if (size > CAP || n == 0 || n > 64)
+    {
+        return 0;
+    }
+    pad = 0; /* reference: count bits one at a time until aligned */
+    while (((off + pad) % n) != 0u)
+    {
+        pad++;
+    }
+    erc = (pad > avail_bits(size, off)) ? ERR_TOO_SMALL : 0;
+    buf_fill(&B, size, (int) p->pat, pseed(p, 21));
+    {
+        bitspan s(B.d, size, off);
+        CALL1(&B, rc = vr(s.padAndMoveToAlignment(n)));
+        noff = s.offset();
+    }
+    count_case(((off % 8u) != 0u) || (erc != 0) || (pad % 8u) != 0u);
+    if (rc != erc)
+    {
+        failp(p, "wrong-result-code", "returned %d, reference %d (padding %zu, available %zu)", rc, erc, pad, avail_bits(size, off));
+    }
+    else if (erc != 0)
+    {
+        if (!data_intact(&B))
+        {
+            report_buf(p, "written-despite-error", &B, 0, "");
+        }
+    }
+    else
+    {
+        if (noff != off + pad)
+        {
+            failp(p, "offset-wrong", "offset after the call %zu, reference %zu", noff, off + pad);
+        }
+        verdict_zeroed(p, off, pad);
+    }
+    check_guards(p, &B, "destination");
+    return 1;
+}
+
+/* A derived const span `s` must show the parent's bits start, start+1, ... for the first `visible` bits and zero after
+ * them (implicit zero extension at the derived span's own end).  Read one bit at a time through at_offset(i).getBit(). */
+static void verdict_const_view(const P* p, const const_bitspan& s, size_t start, size_t visible, size_t cnt)
+{
+    size_t i;
+    for (i = 0; i < cnt; i++)
+    {
+        int       got = 0;
+        const int exp = (i < visible) ? obit(&A, start + i) : 0;
+        CALL1(&A, got = s.at_offset(i).getBit() ? 1 : 0);
+        if (got != exp)
+        {
+            char src[96];
+            hexbuf(src, sizeof(src), A.d, A.size);
+            failp(p, (i < visible) ? "view-bit-wrong" : "read-past-limit-not-zero",
+                  "bit %zu of the derived span reads %d, parent bit %zu is %d (visible bits %zu); buffer=%s", i, got, start + i,
+                  exp, visible, src);
+            return;
+        }
+    }
+}
+
+/* A derived mutable span `s`: setBit at i < visible writes exactly the parent's bit start+i; at i >= visible it reports
+ * an error and writes nothing. */
+static void verdict_mut_view(const P* p, const bitspan& s, size_t start, size_t visible, size_t cnt)
+{
+    size_t i, j;
+    for (i = 0; i < cnt; i++)
+    {
+        int rc = 0;
+        const int v = !obit(&B, start + i); /* flip the bit so that a write is always visible */
+        memcpy(B.d, B.orig + GUARD, B.size);
+        CALL1(&B, rc = vr(s.at_offset(i).setBit(v != 0)));
+        if (rc != ((i < visible) ? 0 : ERR_TOO_SMALL))
+        {
+            failp(p, "view-limit-wrong", "setBit at bit %zu of the derived span returned %d (visible bits %zu)", i, rc, visible);
+            return;
+        }
+        for (j = 0; j < B.size * 8u; j++)
+        {
+            const int exp = (i < visible && j == start + i) ? v : obit(&B, j);
+            if (nbit(&B, j) != exp)
+            {
+                report_buf(p, "view-bit-wrong", &B, j, "(write through the derived span)");
+                return;
+            }
+        }
+        if (!guards_ok(&B))
+        {
+            failp(p, "guard-modified", "write through the derived span at bit %zu", i);
+            return;
+        }
+    }
+}
+
+/* any_bitspan::subspan(bits): n==0 const_bitspan, n==1 bitspan.  The result addresses the parent's bits from off+bits
+ * on, has an offset < 8 and size() == max(0, size*8 - off - bits). */
+static int t_subspan(const P* p)
+{
+    const size_t off = (size_t) p->so, bits = (size_t) p->len, size = (size_t) p->size;
+    const size_t vis = avail_bits(size, off + bits);
+    if (size > CAP)
+    {
+        return 0;
+    }
+    count_case(nt3(off, bits, 0) || (off + bits > size * 8u));
+    if (p->n == 0)
+    {
+        buf_fill(&A, size, (int) p->pat, pseed(p, 22));
+        const const_bitspan s = const_bitspan(A.d, size, off).subspan(bits);
+        if (s.size() != vis || s.offset() >= 8u)
+        {
+            failp(p, "size-wrong", "size() %zu offset() %zu, reference size %zu and offset < 8", (size_t) s.size(), (size_t) s.offset(), vis);
+        }
+        verdict_const_view(p, s, off + bits, vis, vis + 10u > 40u ? 40u : vis + 10u);
+        check_source_intact(p, &A);
+    }
+    else
+    {
+        buf_fill(&B, size, (int) p->pat, pseed(p, 23));
+        /* bitspan::subspan(bits_at, size_bits) hides the one-argument member of the base class: call it through the base */
+        const bitspan parent(B.d, size, off);
+        const bitspan s = static_cast<const nunavut::support::detail::any_bitspan<bitspan>&>(parent).subspan(bits);
+        if (s.size() != vis || s.offset() >= 8u)
+        {
+            failp(p, "size-wrong", "size() %zu offset() %zu, reference size %zu and offset < 8", (size_t) s.size(), (size_t) s.offset(), vis);
+        }
+        verdict_mut_view(p, s, off + bits, vis, vis + 3u > 12u ? 12u : vis + 3u);
+    }
+    return 1;
+}
+
+/* bitspan::subspan(bits_at, size_bits) -> Result<bitspan>: error exactly when the window does not fit; otherwise the
+ * result addresses the parent's bits from off+bits_at on and never shows more than size_bits of them (no documented
+ * contract beyond that: the size is kept in whole bytes, so it is exact when off+bits_at+size_bits is a byte boundary --
+ * which is how the generated code calls it -- and may be up to 7 bits SHORTER otherwise: tolerated, counted). */
+static int t_subspan2(const P* p)
+{
+    const size_t off = (size_t) p->dof, at = (size_t) p->so, sb = (size_t) p->len, size = (size_t) p->size;
+    const int    erc = (off + at + sb > size * 8u) ? ERR_TOO_SMALL : 0;
+    if (size > CAP)
+    {
+        return 0;
+    }
+    buf_fill(&B, size, (int) p->pat, pseed(p, 24));
+    count_case(nt3(off + at, sb, 0) || (erc != 0));
+    {
+        const nunavut::support::Result<bitspan> r = bitspan(B.d, size, off).subspan(at, sb);
+        const int                               rc = r.has_value() ? 0 : -static_cast<int>(r.error());
+        if (rc != erc)
+        {
+            failp(p, "wrong-result-code", "returned %d, reference %d (window end %zu, buffer bits %zu)", rc, erc, off + at + sb, size * 8u);
+        }
+        else if (erc == 0)
+        {
+            const bitspan& s   = r.value();
+            const size_t   got = s.size();
+            if (got > sb || (sb - got) >= 8u || (((off + at + sb) % 8u) == 0u && got != sb) || s.offset() >= 8u)
+            {
+                failp(p, "size-wrong", "size() %zu offset() %zu for a window of %zu bits", got, (size_t) s.offset(), sb);
+            }
+            else
+            {
+                if (got != sb)
+                {
+                    g_tolerated++;
+                }
+                verdict_mut_view(p, s, off + at, got, got + 3u > 12u ? 12u : got + 3u);
+            }
+        }
+    }
+    return 1;
+}
+
+/* subspan_limited_to(size_bytes): like subspan() and additionally limited to size_bytes bytes counted from the byte that
+ * holds the current offset.  n==0 const_bitspan, n==1 bitspan; len = limit in bytes. */
+static int t_subspanLimited(const P* p)
+{
+    const size_t off = (size_t) p->so, lim = (size_t) p->len, size = (size_t) p->size;
+    const size_t ob = off / 8u, mod = off % 8u;
+    const size_t avb = (ob < size) ? (size - ob) : 0u;
+    const size_t nb  = (avb < lim) ? avb : lim;
+    const size_t vis = (nb * 8u > mod) ? (nb * 8u - mod) : 0u;
+    if (size > CAP)
+    {
+        return 0;
+    }
+    count_case(((off % 8u) != 0u) || (lim < avb) || (ob >= size));
+    if (p->n == 0)
+    {
+        buf_fill(&A, size, (int) p->pat, pseed(p, 25));
+        const const_bitspan s = const_bitspan(A.d, size, off).subspan_limited_to(lim);
+        if (s.size() != vis || s.offset() != mod)
+        {
+            failp(p, "size-wrong", "size() %zu offset() %zu, reference %zu and %zu", (size_t) s.size(), (size_t) s.offset(), vis, mod);
+        }
+        verdict_const_view(p, s, off, vis, vis + 18u > 48u ? 48u : vis + 18u);
+        check_source_intact(p, &A);
+    }
+    else
+    {
+        buf_fill(&B, size, (int) p->pat, pseed(p, 26));
+        const bitspan s = bitspan(B.d, size, off).subspan_limited_to(lim);
+        if (s.size() != vis || s.offset() != mod)
+        {
+            failp(p, "size-wrong", "size() %zu offset() %zu, reference %zu and %zu", (size_t) s.size(), (size_t) s.offset(), vis, mod);
+        }
+        verdict_mut_view(p, s, off, vis, vis + 3u > 12u ? 12u : vis + 3u);
+    }
+    return 1;
+}
+
+/* size() and the small accessors, both classes; len = extra bits for at_offset/add_offset */
+static int t_accessors(const P* p)
+{
+    const size_t off = (size_t) p->so, bits = (size_t) p->len, size = (size_t) p->size;
+    static const size_t aligns[4] = {8, 16, 32, 64};
+    size_t              i;
+    if (size > CAP)
+    {
+        return 0;
+    }
+    buf_fill(&A, size, 2, 0);
+    count_case(((off % 8u) != 0u) || (off > size * 8u));
+#define ACC(cond, what) do { if (!(cond)) { failp(p, "accessor-wrong", "%s", what); return 1; } } while (0)
+    {
+        const const_bitspan c(A.d, size, off); /* const: the non-const aligned_ref() of const_bitspan does not compile */
+        bitspan             m(A.d, size, off);
+        ACC(c.size() == avail_bits(size, off), "const_bitspan::size()");
+        ACC(m.size() == avail_bits(size, off), "bitspan::size()");
+        ACC(c.offset() == off && m.offset() == off, "offset()");
+        ACC(c.offset_bytes() == off / 8u && m.offset_bytes() == off / 8u, "offset_bytes()");
+        ACC(c.offset_bytes_ceil() == (off + 7u) / 8u, "offset_bytes_ceil()");
+        ACC(c.offset_alings_to_byte() == ((off % 8u) == 0u), "offset_alings_to_byte()");
+        for (i = 0; i < 4; i++)
+        {
+            ACC(c.offset_misalignment(aligns[i]) == off % aligns[i], "offset_misalignment()");
+            ACC(m.offset_alings_to(aligns[i]) == ((off % aligns[i]) == 0u), "offset_alings_to()");
+        }
+        ACC(c.at_offset(bits).offset() == off + bits && c.at_offset(bits).size() == avail_bits(size, off + bits), "at_offset()");
+        ACC(m.at_offset(bits).offset() == off + bits && m.at_offset(bits).size() == avail_bits(size, off + bits), "bitspan::at_offset()");
+        if ((off + bits) / 8u < size)
+        {
+            ACC(c.aligned_ptr(bits) == A.d + (off + bits) / 8u, "aligned_ptr()");
+            ACC(m.aligned_ptr(bits) == A.d + (off + bits) / 8u, "bitspan::aligned_ptr()");
+        }
+        m.add_offset(bits);
+        ACC(m.offset() == off + bits, "add_offset()");
+        m.set_offset(bits);
+        ACC(m.offset() == bits, "set_offset()");
+        {
+            const_bitspan a8(A.d, size, off), a16(A.d, size, off), a32(A.d, size, off), a64(A.d, size, off);
+            a8.align_offset_to<8U>();
+            a16.align_offset_to<16U>();
+            a32.align_offset_to<32U>();
+            a64.align_offset_to<64U>();
+            ACC(a8.offset() == ((off + 7u) / 8u) * 8u, "align_offset_to<8>");
+            ACC(a16.offset() == ((off + 15u) / 16u) * 16u, "align_offset_to<16>");
+            ACC(a32.offset() == ((off + 31u) / 32u) * 32u, "align_offset_to<32>");
+            ACC(a64.offset() == ((off + 63u) / 64u) * 64u, "align_offset_to<64>");
+        }
+    }
+#undef ACC
+    return 1;
+}
+
+/* const_bitspan::copyTo with the SOURCE size as a dimension: the length is clamped to the source's size().
+ * n==0: copyTo(dst, len); n==1: copyTo(dst) (== all remaining source bits).  Destination = exact fit for the requested
+ * length (documented precondition).  Bits [clamped, len) of the destination window: untouched or zero are both accepted
+ * (the documentation says the source "shall be large enough"; it does not say what happens when it is not). */
+static int t_copyToClamp(const P* p)
+{
+    const size_t so = (size_t) p->so, dof = (size_t) p->dof, ssize = (size_t) p->ssize;
+    const size_t sav = avail_bits(ssize, so);
+    const size_t len = (p->n == 1) ? sav : (size_t) p->len;
+    const size_t cl  = (len < sav) ? len : sav;
+    const size_t dsize = (dof + len + 7u) / 8u;
+    size_t       j;
+    if (ssize > CAP || dsize > CAP)
+    {
+        return 0;
+    }
+    buf_fill(&A, ssize, (int) p->pat, pseed(p, 27));
+    buf_fill(&B, dsize, (int) p->dpat, pseed(p, 28));
+    if (p->n == 1)
+    {
+        CALL2(&A, &B, const_bitspan(A.d, ssize, so).copyTo(bitspan(B.d, dsize, dof)));
+    }
+    else
+    {
+        CALL2(&A, &B, const_bitspan(A.d, ssize, so).copyTo(bitspan(B.d, dsize, dof), len));
+    }
+    count_case(nt3(so, dof, len) || (cl < len));
+    for (j = 0; j < dsize * 8u; j++)
+    {
+        const int got = nbit(&B, j);
+        if (j >= dof && j < dof + cl)
+        {
+            if (got != obit(&A, so + (j - dof)))
+            {
+                report_buf(p, "addressed-bit-wrong", &B, j, "");
+                break;
+            }
+        }
+        else if (j >= dof + cl && j < dof + len)
+        {
+            if (got != obit(&B, j) && got != 0)
+            {
+                report_buf(p, "bit-past-source-end-not-zero", &B, j, "");
+                break;
+            }
+        }
+        else if (got != obit(&B, j))
+        {
+            report_buf(p, "bit-outside-range-modified", &B, j, "");
+            break;
+        }
+    }
+    check_guards(p, &B, "destination");
+    check_guards(p, &A, "source");
+    check_source_intact(p, &A);
+    return 1;
+}
+#endif
+
+/* ------------------------------------------------------------------------------------------------ grids */
+typedef int (*TupleFn)(const P*);
+typedef struct Family
+{
+    const char* name;
+    TupleFn     fn;
+    int64_t     n; /* fixed value of P.n for this family, -1 = free */
+    void (*grid)(const struct Family*, int thin);
+} Family;
+
+static uint64_t pick_val(unsigned vi, size_t len, int is_signed, uint64_t salt)
+{
+    const size_t   sat  = (len > 64u) ? 64u : len;
+    const uint64_t top  = (sat > 0) ? (((uint64_t) 1u) << (sat - 1u)) : 1u;
+    const uint64_t mask = (sat >= 64u) ? ~(uint64_t) 0 : ((((uint64_t) 1u) << sat) - 1u);
+    switch (vi)
+    {
+    case 0: return 0;
+    case 1: return ~(uint64_t) 0; /* all ones == -1 */
+    case 2: return 0xAAAAAAAAAAAAAAAAull;
+    case 3: return 0x5555555555555555ull;
+    case 4: return mix64(salt ^ 0x1234u);
+    case 5: return mix64(salt ^ 0x9876u) | top;
+    case 6: return is_signed ? ~(top - 1u) : top;                  /* most negative / only the top bit */
+    default: return is_signed ? (top - 1u) : ((top - 1u) | ~mask); /* most positive / garbage above the field */
+    }
+}
+#define PAT_HI (thin ? 4u : NPAT)
+#define PINIT(p, f) do { memset(&(p), 0, sizeof(p)); (p).fam = (f)->name; (p).n = ((f)->n >= 0) ? (uint64_t) (f)->n : 0u; } while (0)
+static uint64_t other_pat(uint64_t pat) { return (pat == 0) ? 1u : (pat == 1) ? 0u : (pat == 2) ? 3u : (pat == 3) ? 2u : pat; }
+
+static void g_copyBits(const Family* f, int thin)
+{
+    P p;
+    PINIT(p, f);
+    for (p.so = 0; p.so < 24; p.so++)
+        for (p.dof = 0; p.dof < 24; p.dof++)
+            for (p.len = 0; p.len <= 80; p.len++)
+                for (p.pat = thin ? 3 : 0; p.pat < (thin ? 4u : NPAT); p.pat++)
+                    for (p.dpat = thin ? 2 : 0; p.dpat < (thin ? 4u : NPAT); p.dpat++)
+                    {
+                        p.size = (p.dof + p.len + 7u) / 8u;
+                        f->fn(&p);
+                    }
+}
+static void g_copyBitsOverlap(const Family* f, int thin)
+{
+    P p;
+    PINIT(p, f);
+    p.size = 16;
+    for (p.so = 0; p.so <= 40; p.so += 8)
+        for (p.dof = 0; p.dof <= 40; p.dof += 8)
+            for (p.len = 0; p.len <= 80; p.len++)
+                for (p.pat = thin ? 3 : 2; p.pat < PAT_HI; p.pat++)
+                    f->fn(&p);
+}
+static void g_read(const Family* f, int thin)
+{ /* getBits, getU*, getI*: off x len x size x pattern */
+    P p;
+    PINIT(p, f);
+    for (p.size = 0; p.size <= 12; p.size++)
+        for (p.so = 0; p.so < 112; p.so++)
+            for (p.len = 0; p.len <= 80; p.len++)
+                for (p.pat = thin ? 3 : 0; p.pat < PAT_HI; p.pat++)
+                {
+                    p.dpat = other_pat(p.pat);
+                    f->fn(&p);
+                }
+}
+static void g_saturate(const Family* f, int thin)
+{
+    P p;
+    PINIT(p, f);
+    (void) thin;
+    for (p.size = 0; p.size <= 13; p.size++)
+        for (p.so = 0; p.so < 128; p.so++)
+            for (p.len = 0; p.len < 128; p.len++)
+                f->fn(&p);
+}
+static void g_setBit(const Family* f, int thin)
+{
+    P p;
+    PINIT(p, f);
+    for (p.size = 0; p.size <= 13; p.size++)
+        for (p.dof = 0; p.dof < 128; p.dof++)
+            for (p.val = 0; p.val < 2; p.val++)
+                for (p.pat = thin ? 2 : 0; p.pat < PAT_HI; p.pat++)
+                    f->fn(&p);
+}
+static void g_getBit(const Family* f, int thin)
+{
+    P p;
+    PINIT(p, f);
+    for (p.size = 0; p.size <= 13; p.size++)
+        for (p.so = 0; p.so < 128; p.so++)
+            for (p.pat = thin ? 2 : 0; p.pat < PAT_HI; p.pat++)
+                f->fn(&p);
+}
+static void g_setXxx(const Family* f, int thin)
+{
+    static const unsigned extra[6] = {81, 96, 127, 128, 200, 255};
+    P                     p;
+    unsigned              li, vi;
+    PINIT(p, f);
+    for (p.size = 0; p.size <= 15; p.size++)
+        for (p.dof = 0; p.dof < 32; p.dof++)
+            for (li = 0; li <= 86; li++)
+            {
+                p.len = (li <= 80) ? li : extra[li - 81];
+                for (vi = 0; vi < 8; vi++)
+                    for (p.pat = thin ? 3 : 0; p.pat < PAT_HI; p.pat++)
+                    {
+                        p.val = pick_val(vi, (size_t) p.len, f->n == 1, pseed(&p, 77));
+                        f->fn(&p);
+                    }
+            }
+}
+static const uint32_t F32_SPECIAL[] = {0x00000000u, 0x80000000u, 0x00000001u, 0x007FFFFFu, 0x00800000u, 0x3F800000u, 0xBF800000u,
+                                       0x3FC00000u, 0x477FE000u /*65504*/, 0x477FEFFFu /*65519.996*/, 0x477FF000u /*65520*/,
+                                       0x47800000u /*65536*/, 0x322BCC77u /*1e-8*/, 0x33800000u /*2^-24*/, 0x33000000u /*2^-25*/,
+                                       0x33000001u, 0x387FC000u /*max half subnormal*/, 0x38800000u /*2^-14*/, 0x7F7FFFFFu,
+                                       0xFF7FFFFFu, 0x7F800000u, 0xFF800000u, 0x7FC00000u, 0xFFC00001u};
+static const uint64_t F64_SPECIAL[] = {0x0000000000000000ull, 0x8000000000000000ull, 0x0000000000000001ull, 0x000FFFFFFFFFFFFFull,
+                                       0x0010000000000000ull, 0x3FF0000000000000ull, 0xBFF8000000000000ull, 0x7FEFFFFFFFFFFFFFull,
+                                       0xFFEFFFFFFFFFFFFFull, 0x7FF0000000000000ull, 0xFFF0000000000000ull, 0x7FF8000000000000ull,
+                                       0x400921FB54442D18ull, 0x3E45798EE2308C3Aull};
+static void g_setF(const Family* f, int thin)
+{
+    P        p;
+    unsigned vi;
+    const unsigned nspec = (f->n == 64) ? (unsigned) (sizeof(F64_SPECIAL) / sizeof(F64_SPECIAL[0])) : (unsigned) (sizeof(F32_SPECIAL) / sizeof(F32_SPECIAL[0]));
+    PINIT(p, f);
+    for (p.size = 0; p.size <= 12; p.size++)
+        for (p.dof = 0; p.dof < 24; p.dof++)
+            for (vi = 0; vi < nspec + 12u; vi++)
+                for (p.pat = thin ? 3 : 0; p.pat < PAT_HI; p.pat++)
+                {
+                    if (vi < nspec)
+                        p.val = (f->n == 64) ? F64_SPECIAL[vi] : F32_SPECIAL[vi];
+                    else
+                        p.val = (f->n == 64) ? mix64(pseed(&p, vi)) : (mix64(pseed(&p, vi)) & 0xFFFFFFFFu);
+                    f->fn(&p);
+                }
+}
+static void g_getF(const Family* f, int thin)
+{
+    P p;
+    PINIT(p, f);
+    for (p.size = 0; p.size <= 12; p.size++)
+        for (p.so = 0; p.so < 41; p.so++)
+            for (p.pat = thin ? 3 : 0; p.pat < PAT_HI; p.pat++)
+                for (p.ssize = 0; p.ssize < ((p.pat == 3) ? 16u : 1u); p.ssize++) /* ssize = content salt only */
+                    f->fn(&p);
+}
+static void g_half(const Family* f, int thin)
+{
+    P p;
+    PINIT(p, f);
+    (void) thin;
+    for (p.val = 0; p.val < 0x10000u; p.val++)
+        f->fn(&p);
+}
+static void g_f16crit_f(const Family* f, int thin) { (void) f; g_f16crit(thin); }
+#ifdef C14_CPP
+static void g_setZeros(const Family* f, int thin)
+{
+    P p;
+    PINIT(p, f);
+    for (p.size = 0; p.size <= 13; p.size++)
+        for (p.dof = 0; p.dof < 112; p.dof++)
+            for (p.pat = thin ? 3 : 0; p.pat < PAT_HI; p.pat++)
+            {
+                p.n = 0;
+                for (p.len = 0; p.len <= 104; p.len++)
+                    f->fn(&p);
+                p.n   = 1;
+                p.len = 0;
+                f->fn(&p);
+            }
+}
+static void g_padAndMove(const Family* f, int thin)
+{
+    static const unsigned al[5] = {1, 8, 16, 32, 64};
+    P                     p;
+    unsigned              i;
+    PINIT(p, f);
+    for (p.size = 0; p.size <= 13; p.size++)
+        for (p.dof = 0; p.dof < 112; p.dof++)
+            for (i = 0; i < 5; i++)
+                for (p.pat = thin ? 3 : 0; p.pat < PAT_HI; p.pat++)
+                {
+                    p.n = al[i];
+                    f->fn(&p);
+                }
+}
+static void g_subspan(const Family* f, int thin)
+{
+    P p;
+    PINIT(p, f);
+    for (p.size = 0; p.size <= 12; p.size++)
+        for (p.so = 0; p.so < 64; p.so += (thin ? 3 : 1))
+            for (p.len = 0; p.len < 64; p.len++)
+                for (p.pat = 2; p.pat < PAT_HI; p.pat++)
+                    for (p.n = 0; p.n < 2; p.n++)
+                        f->fn(&p);
+}
+static void g_subspan2(const Family* f, int thin)
+{
+    P p;
+    PINIT(p, f);
+    p.pat = 3;
+    for (p.size = 0; p.size <= 12; p.size++)
+        for (p.dof = 0; p.dof < 24; p.dof += (thin ? 5 : 1))
+            for (p.so = 0; p.so < 48; p.so++)
+                for (p.len = 0; p.len <= 64; p.len++)
+                    f->fn(&p);
+}
+static void g_subspanLimited(const Family* f, int thin)
+{
+    P p;
+    PINIT(p, f);
+    (void) thin;
+    for (p.size = 0; p.size <= 12; p.size++)
+        for (p.so = 0; p.so < 64; p.so++)
+            for (p.len = 0; p.len <= 14; p.len++)
+                for (p.pat = 2; p.pat < PAT_HI; p.pat++)
+                    for (p.n = 0; p.n < 2; p.n++)
+                        f->fn(&p);
+}
+static void g_accessors(const Family* f, int thin)
+{
+    P p;
+    PINIT(p, f);
+    (void) thin;
+    for (p.size = 0; p.size <= 13; p.size++)
+        for (p.so = 0; p.so < 128; p.so++)
+            for (p.len = 0; p.len < 32; p.len++)
+                f->fn(&p);
+}
+static void g_copyToClamp(const Family* f, int thin)
+{
+    P p;
+    PINIT(p, f);
+    for (p.ssize = 0; p.ssize <= 13; p.ssize++)
+        for (p.so = 0; p.so < 24; p.so++)
+            for (p.dof = 0; p.dof < 24; p.dof += (thin ? 5 : 1))
+                for (p.pat = thin ? 3 : 2; p.pat < PAT_HI; p.pat++)
+                {
+                    p.dpat = other_pat(p.pat);
+                    p.n    = 0;
+                    for (p.len = 0; p.len <= 80; p.len++)
+                        f->fn(&p);
+                    p.n   = 1;
+                    p.len = 0;
+                    f->fn(&p);
+                }
+}
+#endif
+
+static const Family FAMILIES[] = {
+    {"copyBits", t_copyBits, -1, g_copyBits},
+    {"copyBitsOverlap", t_copyBitsOverlap, -1, g_copyBitsOverlap},
+    {"getBits", t_getBits, -1, g_read},
+    {"saturate", t_saturate, -1, g_saturate},
+    {"setBit", t_setBit, -1, g_setBit},
+    {"getBit", t_getBit, -1, g_getBit},
+    {"setUxx", t_setXxx, 0, g_setXxx},
+    {"setIxx", t_setXxx, 1, g_setXxx},
+    {"getU8", t_getU, 8, g_read},
+    {"getU16", t_getU, 16, g_read},
+    {"getU32", t_getU, 32, g_read},
+    {"getU64", t_getU, 64, g_read},
+    {"getI8", t_getI, 8, g_read},
+    {"getI16", t_getI, 16, g_read},
+    {"getI32", t_getI, 32, g_read},
+    {"getI64", t_getI, 64, g_read},
+    {"f16unpack", t_f16unpack, -1, g_half},
+    {"f16roundtrip", t_f16roundtrip, -1, g_half},
+    {"f16pack", t_f16pack, -1, g_f16crit_f},
+    {"setF16", t_setF, 16, g_setF},
+    {"setF32", t_setF, 32, g_setF},
+    {"setF64", t_setF, 64, g_setF},
+    {"getF16", t_getF, 16, g_getF},
+    {"getF32", t_getF, 32, g_getF},
+    {"getF64", t_getF, 64, g_getF},
+#ifdef C14_CPP
+    {"setZeros", t_setZeros, -1, g_setZeros},
+    {"padAndMoveToAlignment", t_padAndMove, -1, g_padAndMove},
+    {"subspan", t_subspan, -1, g_subspan},
+    {"subspan2", t_subspan2, -1, g_subspan2},
+    {"subspan_limited_to", t_subspanLimited, -1, g_subspanLimited},
+    {"accessors", t_accessors, -1, g_accessors},
+    {"copyToClamp", t_copyToClamp, -1, g_copyToClamp},
+#endif
+};
+#define NFAM ((int) (sizeof(FAMILIES) / sizeof(FAMILIES[0])))
+
+static const Family* find_family(const char* name)
+{
+    int i;
+    for (i = 0; i < NFAM; i++)
+    {
+        if (strcmp(FAMILIES[i].name, name) == 0)
+        {
+            return &FAMILIES[i];
+        }
+    }
+    return NULL;
+}
+
+static void flush_counts(const char* label)
+{
+    int i;
+    printf("COUNT %s %" PRIu64 " %" PRIu64 "\n", label, g_cases, g_nontriv);
+    if (g_tolerated)
+    {
+        printf("TOL %s tolerated-deviation %" PRIu64 "\n", label, g_tolerated);
+    }
+    for (i = 0; i < g_nfails; i++)
+    {
+        printf("FAILS %s %s %" PRIu64 "\n", g_fails[i].fam, g_fails[i].clause, g_fails[i].count);
+    }
+    g_cases = g_nontriv = g_tolerated = 0;
+    g_nfails = 0;
+    fflush(stdout);
+}
+
+/* ------------------------------------------------------------------------------------------------ random larger tuples */
+static uint64_t g_rng;
+static uint64_t rnd(void) { g_rng += 0x9E3779B97F4A7C15ULL; return mix64(g_rng); }
+static uint64_t rndn(uint64_t n) { return (n == 0) ? 0 : (rnd() % n); } /* [0, n) */
+
+static void run_rand(uint64_t seed, uint64_t n)
+{
+    static const char* const names[] = {"copyBits", "getBits", "setUxx", "setIxx", "getU8", "getU16", "getU32", "getU64",
+                                        "getI8", "getI16", "getI32", "getI64", "setBit", "getBit", "saturate", "setF32",
+                                        "getF64", "copyBitsOverlap",
+#ifdef C14_CPP
+                                        "setZeros", "padAndMoveToAlignment", "copyToClamp", "subspan", "subspan_limited_to", "subspan2",
+#endif
+    };
+    const int      nn = (int) (sizeof(names) / sizeof(names[0]));
+    uint64_t       i;
+    uint64_t       per_cases[32] = {0}, per_nt[32] = {0};
+    g_rng = mix64(seed ^ 0xC14C14C14ull);
+    for (i = 0; i < n; i++)
+    {
+        const Family* f = find_family(names[i % (uint64_t) nn]);
+        P             p;
+        PINIT(p, f);
+        p.pat  = 2 + rndn(NPAT - 2u);
+        p.dpat = rndn(NPAT);
+        p.size = (rndn(4) == 0) ? rndn(401) : rndn(40);
+        if (f->fn == t_copyBits)
+        {
+            p.dof = rndn(p.size * 8u + 1u);
+            p.len = rndn(p.size * 8u - p.dof + 1u);
+            p.so  = rndn(3001);
+        }
+        else if (f->fn == t_copyBitsOverlap)
+        {
+            p.size = 16 + rndn(300);
+            p.so   = 8u * rndn(p.size);
+            p.dof  = 8u * rndn(p.size);
+            if (p.so == p.dof)
+            {
+                p.dof = (p.so == 0) ? 8u : (p.so - 8u);
+            }
+            {
+                const uint64_t mx = (p.so > p.dof) ? p.so : p.dof;
+                p.len = rndn(p.size * 8u - mx + 1u);
+            }
+        }
+        else if (f->fn == t_getBits)
+        {
+            p.so  = rndn(p.size * 8u + 80u);
+            p.len = rndn(3001);
+        }
+        else if (f->fn == t_saturate)
+        {
+            p.so  = rnd() >> (rndn(50) + 14);
+            p.len = rnd() >> (rndn(50) + 14);
+            p.len %= 100000u; /* reference counts bit by bit */
+        }
+        else if (f->fn == t_setXxx)
+        {
+            p.dof = rndn(p.size * 8u + 70u);
+            p.len = rndn(4) ? rndn(65) : rndn(256);
+            p.val = pick_val((unsigned) rndn(8), (size_t) p.len, f->n == 1, rnd());
+        }
+        else if (f->fn == t_setBit || f->fn == t_setF)
+        {
+            p.dof = rndn(p.size * 8u + 70u);
+            p.val = rnd();
+            if (f->n == 32)
+            {
+                p.val &= 0xFFFFFFFFu;
+            }
+        }
+#ifdef C14_CPP
+        else if (f->fn == t_setZeros)
+        {
+            p.dof = rndn(p.size * 8u + 20u);
+            p.len = rndn(p.size * 8u + 20u);
+            p.n   = (rndn(8) == 0) ? 1u : 0u;
+        }
+        else if (f->fn == t_padAndMove)
+        {
+            static const unsigned al[5] = {1, 8, 16, 32, 64};
+            p.dof = rndn(p.size * 8u + 70u);
+            p.n   = al[rndn(5)];
+        }
+        else if (f->fn == t_copyToClamp)
+        {
+            p.ssize = p.size;
+            p.so    = rndn(p.ssize * 8u + 20u);
+            p.dof   = rndn(200);
+            p.len   = rndn(p.ssize * 8u + 40u);
+            p.n     = (rndn(8) == 0) ? 1u : 0u;
+        }
+        else if (f->fn == t_subspan || f->fn == t_subspanLimited)
+        {
+            p.so  = rndn(p.size * 8u + 20u);
+            p.len = (f->fn == t_subspan) ? rndn(p.size * 8u + 20u) : rndn(p.size + 3u);
+            p.n   = rndn(2);
+        }
+        else if (f->fn == t_subspan2)
+        {
+            p.dof = rndn(p.size * 8u + 10u);
+            p.so  = rndn(p.size * 8u + 10u);
+            p.len = rndn(p.size * 8u + 10u);
+        }
+#endif
+        else
+        { /* getU*, getI*, getBit, getF* */
+            p.so  = rndn(p.size * 8u + 80u);
+            p.len = rndn(4) ? rndn(65) : rndn(256);
+            if (f->fn == t_getI && p.len == 1u)
+            {
+                p.len = 2;
+            }
+        }
+        {
+            const uint64_t c0 = g_cases, n0 = g_nontriv;
+            if (!f->fn(&p))
+            {
+                printf("SELFCHECK-FAIL random tuple outside the domain of %s\n", f->name);
+                exit(3);
+            }
+            per_cases[i % (uint64_t) nn] += g_cases - c0;
+            per_nt[i % (uint64_t) nn] += g_nontriv - n0;
+        }
+    }
+    {
+        int k;
+        for (k = 0; k < nn; k++)
+        {
+            printf("COUNT rand.%s %" PRIu64 " %" PRIu64 "\n", names[k], per_cases[k], per_nt[k]);
+        }
+        g_cases = g_nontriv = 0;
+    }
+}
+
+/* ------------------------------------------------------------------------------------------------ main */
+static int parse_kv(P* p, const char* kv)
+{
+    const char* eq = strchr(kv, '=');
+    uint64_t    v;
+    size_t      kl;
+    if (eq == NULL)
+    {
+        return 0;
+    }
+    v  = strtoull(eq + 1, NULL, 0);
+    kl = (size_t) (eq - kv);
+#define KV(name, field) if (kl == strlen(name) && strncmp(kv, name, kl) == 0) { p->field = v; return 1; }
+    KV("so", so)
+    KV("do", dof)
+    KV("len", len)
+    KV("size", size)
+    KV("ssize", ssize)
+    KV("pat", pat)
+    KV("dpat", dpat)
+    KV("n", n)
+    KV("val", val)
+#undef KV
+    if (kl == 4 && strncmp(kv, "seed", 4) == 0)
+    {
+        g_seed = v;
+        return 1;
+    }
+    return 0;
+}
+
+int main(int argc, char** argv)
+{
+    buf_init(&A);
+    buf_init(&B);
+    buf_init(&O);
+    f16_init();
+    if (argc < 2)
+    {
+        fprintf(stderr, "usage: see the head of c14_c.c\n");
+        return 2;
+    }
+    if (strcmp(argv[1], "list") == 0)
+    {
+        int i;
+        for (i = 0; i < NFAM; i++)
+        {
+            printf("%s\n", FAMILIES[i].name);
+        }
+        return 0;
+    }
+    if (strcmp(argv[1], "grid") == 0 && argc >= 5)
+    {
+        const Family* f = find_family(argv[2]);
+        if (f == NULL)
+        {
+            fprintf(stderr, "unknown family %s\n", argv[2]);
+            return 2;
+        }
+        g_seed = strtoull(argv[3], NULL, 0);
+        f->grid(f, atoi(argv[4]));
+        flush_counts(f->name);
+        printf("DONE\n");
+        return 0;
+    }
+    if (strcmp(argv[1], "rand") == 0 && argc >= 4)
+    {
+        g_seed = strtoull(argv[2], NULL, 0);
+        run_rand(g_seed, strtoull(argv[3], NULL, 0));
+        flush_counts("rand.-");
+        printf("DONE\n");
+        return 0;
+    }
+    if (strcmp(argv[1], "f16sweep") == 0 && argc >= 6)
+    {
+        g_seed = strtoull(argv[5], NULL, 0);
+        f16_sweep((uint32_t) strtoull(argv[2], NULL, 0), strtoull(argv[3], NULL, 0), (uint32_t) strtoull(argv[4], NULL, 0), g_seed,
+                  (argc >= 7) ? atoi(argv[6]) : 0);
+        flush_counts("f16pack");
+        printf("DONE\n");
+        return 0;
+    }
+    if (strcmp(argv[1], "single") == 0 && argc >= 4)
+    {
+        const Family* f = find_family(argv[2]);
+        P             p;
+        int           i, in_domain;
+        if (f == NULL)
+        {
+            fprintf(stderr, "unknown family %s\n", argv[2]);
+            return 2;
+        }
+        PINIT(p, f);
+        g_seed = strtoull(argv[3], NULL, 0);
+        for (i = 4; i < argc; i++)
+        {
+            if (!parse_kv(&p, argv[i]))
+            {
+                fprintf(stderr, "bad parameter %s\n", argv[i]);
+                return 2;
+            }
+        }
+        if (f->n >= 0)
+        {
+            p.n = (uint64_t) f->n;
+        }
+        g_verbose = 1;
+        in_domain = f->fn(&p);
+        if (!in_domain)
+        {
+            printf("OUTSIDE-DOMAIN\n");
+        }
+        flush_counts(f->name);
+        printf("DONE\n");
+        return 0;
+    }
+    if (strcmp(argv[1], "asan-selftest") == 0)
+    { /* must die under ASan (read of a poisoned guard byte); prints NOT-DETECTED otherwise */
+        volatile uint8_t sink;
+        buf_fill(&A, 5, 3, 0);
+        poison(&A);
+        sink = ((volatile uint8_t*) A.d)[5];
+        (void) sink;
+        printf("NOT-DETECTED\n");
+        return 0;
+    }
+    fprintf(stderr, "bad arguments\n");
+    return 2;
 }
